@@ -64,6 +64,7 @@ Theorem C16_resume_refines_uninterrupted_partial {T} {N : Num T} {P I B G}
   (fresh : sys T P I) (bs1 bs2 : list B) :
   let y1 := run release inner accstep nsstep csstep fresh bs1 in
   f_oval (y_ns fresh) = f_oval (y_ns y1) -> f_oval (y_cs fresh) = f_oval (y_cs y1) ->
+  f_lam (y_ns fresh) = f_lam (y_ns y1) -> f_lam (y_cs fresh) = f_lam (y_cs y1) ->       (* schedule functions are not saved: same functions in the fresh system *)
   exists y2, load_ckpt fresh (save_ckpt y1 true true true) true true true = Ok y2 /\
              run release inner accstep nsstep csstep y2 bs2 = run release inner accstep nsstep csstep fresh (bs1 ++ bs2).
 Proof. exact (resume_refines_uninterrupted release inner accstep nsstep csstep fresh bs1 bs2). Qed.
